@@ -106,7 +106,13 @@ Definition walk_ok (b0 : N) (sg : list N) (obs : list (nat * bool * list N)) : b
 
 Definition check (c : case) : N :=
   match c with
-  | CBeta b0 sg d sc p impl => Check.verdict (N.eqb (calculate_beta b0 sg d sc p) impl) true
+  | CBeta b0 sg d sc p impl =>
+    (* oracle: the value written into the info field is the construction-time
+       value of the first hop field the packet is verified against *)
+    let first_idx := if d then sc else (length sg - 1)%nat in
+    let first_peer := if d then p else Nat.eqb (length sg - 1) sc && p in
+    Check.verdict (N.eqb (calculate_beta b0 sg d sc p) impl)
+                  (N.eqb impl (construction_segid b0 sg first_idx first_peer))
   | CExtract b0 sg impl => Check.verdict (N.eqb (extract_beta b0 sg) impl) true
   | CWalk cd b0 sg s0 hs impl =>
     Check.verdict (list_eqb obs_eqb (fst (walk cd s0 hs)) impl) (walk_ok b0 sg impl)
